@@ -128,10 +128,10 @@ def maxExtent (P : Problem) : Float :=
 /-- `StateSpace::setup`: `longestValidSegment_ = maxExtent_ * longestValidSegmentFraction_` -/
 def longestSeg (P : Problem) : Float := maxExtent P * P.res
 
-/-- `SelfConfig::configurePlannerRange` -/
 /-- `magic::MAX_MOTION_LENGTH_AS_SPACE_EXTENT_FRACTION` = 0.2 -/
 def rangeFraction : Float := Float.ofBits 0x3FC999999999999A
 
+/-- `SelfConfig::configurePlannerRange` -/
 def maxDistance (P : Problem) : Float := if P.range < epsD then maxExtent P * rangeFraction else P.range
 
 /-- `for (i = 0; i < dimension_; ++i) { diff = s1[i] - s2[i]; dist += diff * diff; }` -/
